@@ -164,6 +164,28 @@ def cycle(ctx: Ctx, name: str, src: Path, accessors: bool, cycles: int):
         # the copy that is saved next is opened afresh: the one just inspected has had its styles read
         cur, _ = open_doc(out)
         out.unlink(missing_ok=True)
+    # the same Document object saved a second time (no reopen in between): the second file reads like the source too
+    twice, _ = open_doc(src)
+    try:
+        with warnings.catch_warnings():
+            warnings.simplefilter("ignore")
+            a, b = ctx.tmp / f"{name}_twice_a.numbers", ctx.tmp / f"{name}_twice_b.numbers"
+            twice.save(a)
+            twice.save(b)
+        nb, why = open_doc(b)
+        d = ("reopen", why) if nb is None else diff_snap(ref, snapshot(nb, with_styles=True))
+        ctx.count("oracle-cycle")
+        if d:
+            ctx.oracle_fail(f"{d[0]}-changed", {"fixture": name, "accessors": accessors, "cycle": "second save of the same object"},
+                            f"{name}: the file written by a second save() of the same Document: {d[1]}")
+            return "failed"
+    except Exception as e:  # noqa: BLE001
+        ctx.oracle_fail(f"save-raises:{type(e).__name__}", {"fixture": name, "accessors": accessors, "cycle": "second save of the same object"},
+                        f"second save of the same object raised {type(e).__name__}: {e}")
+        return "failed"
+    finally:
+        for q in (ctx.tmp / f"{name}_twice_a.numbers", ctx.tmp / f"{name}_twice_b.numbers"):
+            q.unlink(missing_ok=True)
     ctx.nontrivial((name, accessors))
     return "ok"
 
@@ -175,7 +197,8 @@ def api_documents(ctx: Ctx):
     docs = []
     d = Document(num_rows=5, num_cols=4)
     t = d.sheets[0].tables[0]
-    vals = ["text", 12, 0.11, True, datetime(2024, 2, 29, 13, 0, 1), timedelta(days=2, seconds=5), "", -7.25, 10 ** 14]
+    vals = ["text", 12, 0.11, True, datetime(2024, 2, 29, 13, 0, 1), timedelta(days=2, seconds=5), "", -7.25, 10 ** 14,
+            datetime(2024, 7, 15, 12, 0, 0), datetime(2023, 10, 29, 1, 30, 0)]
     for i, v in enumerate(vals):
         t.write(i // 4 + 1, i % 4, v)
     t.merge_cells("A5:B5")
@@ -190,6 +213,16 @@ def api_documents(ctx: Ctx):
     t.merge_cells("A2:C3")
     t.merge_cells("A6:A8")
     docs.append(("api-full-width-merge", d))
+    # merges anchored in the second tile of a tall table, text around them
+    d = Document(num_rows=300, num_cols=3)
+    t = d.sheets[0].tables[0]
+    for r in (0, 3, 4, 255, 256, 258, 259, 260, 264, 270, 299):
+        for c in range(3):
+            t.write(r, c, f"r{r}c{c}")
+    t.merge_cells("A260:B270")
+    t.merge_cells("C257:C258")
+    t.merge_cells("C2:C3")
+    docs.append(("api-deep-merge", d))
     d = Document(num_rows=6, num_cols=5)
     t = d.sheets[0].tables[0]
     for r in range(1, 6):
@@ -353,6 +386,23 @@ def run(ctx: Ctx) -> int:
         for name, p in readable:
             if (name, p) not in chosen:
                 results[f"{name}:0:1cycle"] = cycle(ctx, name, p, False, 1)
+    # what is read must not depend on the time zone of the process: documents with date cells once more under a zone
+    # that has daylight saving time (dates are stored as seconds from an epoch; a conversion through local time drifts)
+    import os
+    import time
+    old_tz = os.environ.get("TZ")
+    try:
+        os.environ["TZ"] = "GMT0BST,M3.5.0/1,M10.5.0"
+        time.tzset()
+        for name, p in readable + [x for x in docs if x not in readable]:
+            if name in ("test-custom-formats", "date_formats", "api-values"):
+                results[f"{name}:dst-zone"] = cycle(ctx, name + "-dst", p, False, 2)
+    finally:
+        if old_tz is None:
+            os.environ.pop("TZ", None)
+        else:
+            os.environ["TZ"] = old_tz
+        time.tzset()
     ctx.dist("documents_cycled", len(docs))
     ctx.sample({"documents": [n for n, _ in docs][:12], "outcomes": dict(list(results.items())[:8])})
     return common.finish(ctx, search)
